@@ -150,7 +150,10 @@ def _run(args):
         for k_ in micro:
             micro[k_] = 0              # the observation counters describe the measured call only
         calls.update(spd=0, qr=0)
-    np.random.seed(seed)
+    if cfg.get("seed") is None or cfg.get("warm"):
+        np.random.seed(seed)
+    # (a solver constructed with its own seed= is called straight after construction, like a user would: the global
+    # generator is in the state the constructor left it in)
     try:
         with Recorder() as rec, contextlib.redirect_stdout(io.StringIO()):
             X, info = call(Aq)
